@@ -151,6 +151,9 @@ def jobs(tier, seed):
             for sort in ('int', 'real'):
                 js.append({'harness': 'tb', 'weight': 10,
                            'cfg': {'rate': rate, 'bucket': bucket, 'peak': peak, 'n': n, 'sorts': sort}})
+    # a peak rate below (and equal to) the token rate is a legal configuration: the spacing still applies
+    js.append({'harness': 'tb', 'weight': 10, 'cfg': {'rate': 64, 'bucket': 16, 'peak': 8, 'n': n, 'sorts': 'int'}})
+    js.append({'harness': 'tb', 'weight': 10, 'cfg': {'rate': 8, 'bucket': 4, 'peak': 8, 'n': n, 'sorts': 'real'}})
     js.append({'harness': 'tb', 'weight': 5,
                'cfg': {'rate': 8, 'bucket': 4, 'peak': None, 'n': n, 'sorts': 'int', 'burst': [0] + [1] * (n - 1)}})
     for (pir, pbs) in ((None, None), (16, 6), (8, 3)):
